@@ -338,3 +338,13 @@ package ast
 //@   at call Document.VariableDefinitionNameString: assert {only.variable.definitions.of.operations.still.in.the.document.are.consulted} isLiveVariableDefinition(d, arg1)
 //@   pure
 //@   safety no-bounds
+
+// C17 (no panic on a valid schema): only enum, string, int and float values have a content; asking for the content of
+// any other kind (null, boolean, list, object, variable) panics - that is a precondition for every caller
+//@ func Document.ValueContentBytes
+//@   requires {only.enum.string.int.and.float.values.have.a.content} d != nil && (value.Kind == ValueKindEnum || value.Kind == ValueKindString || value.Kind == ValueKindInteger || value.Kind == ValueKindFloat)
+//@   modifies *
+//@   safety no-bounds
+//@ func Document.ValueContentString
+//@   requires {only.enum.string.int.and.float.values.have.a.content} d != nil && (value.Kind == ValueKindEnum || value.Kind == ValueKindString || value.Kind == ValueKindInteger || value.Kind == ValueKindFloat)
+//@   modifies *
